@@ -122,7 +122,7 @@ pub fn verif_cursor(v: Vec<u8>) -> (r: VerifCursor) ensures cursor_rest(&r) == v
 //@fn from_bytes ret r
 //@assume
 //@spec
-    // ASSUMED (goes through ascii::AsciiString::from_ascii): succeeds exactly on ASCII input and keeps the text
+    // PROVED on the real body in U-PARSE (tools/linkcheck.py compares the texts; AsciiString::from_ascii itself is the dependency's)
     ensures
         (r is Ok) == (all_ascii(bytes_of(header)) && all_ascii(bytes_of(value))),
         r is Ok ==> r->Ok_0.field.name() == chars_of(header) && r->Ok_0.value@ == chars_of(value),
